@@ -30,11 +30,22 @@ def check(ctx):
     caps, pm, _ = capabilities(a)
     classes = [c for c in a.protos if "pub" in caps.get(c.qual, set())]
     ctx.floor("publisher-capable classes", len(classes), 2)
+    # the session state lives in the factory's per-address containers: the protocol built for the reconnection must find them
+    from .c19 import build_overwrites
+    ow = build_overwrites(a)
+    for reg in PUB_REGS:
+        e = ow.get(reg)
+        ctx.ob("Y-KEEP", "buildProtocol keeps the %s an address already has" % reg, e is None, where=where(e) if e is not None else "src/mqtt/client/factory.py",
+               function=e.func if e is not None else "", construct="buildProtocol/%s/replaced" % reg,
+               msg="buildProtocol replaces the container of %s for an address that already has one: the session state kept by a "
+                   "non-clean loss is gone when the next connection is made" % reg)
     n = 0
     for cls in classes:
         cat = catalogue(a, cls)
         cq = cls_short(cls.qual)
         lc = lifecycle(a, cls)
+        from ..lifecycle import rule_session_field
+        rule_session_field(ctx, cat, "Y-MODE", "cleanStart", "the session mode", 'a refused or rejected connect(), or a handler, changes the session mode under which the next loss and the next CONNACK treat the pending requests')
         ctx.ob("Y-MODE", "%s the session mode is recorded when connect() is accepted, before any loss can happen" % cq, lc.clean_at_connect,
                where=where(lc.clean_event) if lc.clean_event is not None else cls.module.path,
                function=lc.clean_event.func if lc.clean_event is not None else "", construct="session-mode/recorded-at-connect",
